@@ -56,11 +56,12 @@ FailedBc(r) ==
                    [] OTHER -> TRUE}
 
 FailedDt(r) ==
-  {c \in {"C18_definition", "C18_positive", "C18_linear", "C18_local", "C18_exact"} :
+  {c \in {"C18_definition", "C18_positive", "C18_linear", "C18_local", "C18_exact", "C18_cells"} :
      ~ CASE c = "C18_definition" -> r.defulps <= TolRoundoff
          [] c = "C18_positive" -> r.positive = 1
          [] c = "C18_linear" -> r.linear = 0          \* bitwise in cfl and cell size for power-of-two factors
          [] c = "C18_local" -> r.local = 0            \* perturbing another cell leaves this entry bit-identical
+         [] c = "C18_cells" -> r.cells = 0            \* with rhs == 1 every unknown of cell i advanced by min(dt) / by dt_i (dtlocal)
          [] c = "C18_exact" ->                        \* dt = cfl * h / (|u| + c) with rational c (exact points)
               (r.exact = 1) => FromPair(r.dt) = RDiv(RMul(FromPair(r.cfl), FromPair(r.h)), RAdd(RAbs(FromPair(r.u)), FromPair(r.c)))}
 
